@@ -73,6 +73,17 @@ def run(ctx):
             fails.append({"why": "encode failed for peer %s: %s" % ((u, g), r and r["error_str"]), "peer": (u, g)})
             continue
         check_cred("plain", u, g, r["data"])
+        # the header's retry counter is a byte the client controls: a request flagged as a retransmission, arriving right
+        # after a request of ANOTHER peer on the recycled descriptor, still carries the identity the kernel attests for ITS
+        # connection (round 8: an identity remembered per descriptor number and reused when retry > 0)
+        other_u, other_g = (0, 0) if u else (4242, 4243)
+        for rt in ((1, 2, 3, 4, 5, 255) if ctx.thorough else (1, 4)):
+            rig.encode(cr.d.sock, uid=other_u, gid=other_g, data=b"previous peer")
+            e, st = rig.encode(cr.d.sock, uid=u, gid=g, retry=rt, data=b"flagged as retry %d" % rt)
+            if e and e["error_num"] == 0:
+                check_cred("retry-flagged", u, g, e["data"])
+            else:
+                ctx.count(("retry-flagged", u, g, rt, "refused"))
         # request stuffed with other identities everywhere a client controls bytes
         fake_u, fake_g = (0, 0) if u else (4242, 4243)
         words = struct.pack(">II", fake_u, fake_g) * 6
@@ -111,6 +122,18 @@ def run(ctx):
             if diff:
                 mism.append(cr.mismatches[-1])
             want = 0 if (du, dg) == (u, g) else 18
+            if (du, dg) != (u, g):
+                # the same unauthorized peer again, flagged as a retransmission, right after a request of the authorized
+                # peer (any request: an encode) on the recycled descriptor
+                rig.encode(cr.d.sock, uid=u, gid=g, data=b"authorized peer was here")
+                d2, _ = rig.decode(cr.d.sock, r["data"], uid=du, gid=dg, retry=1)
+                ctx.count(("dec-peer-retry", u, g, du, dg))
+                dist["dec-peer-retry"] = dist.get("dec-peer-retry", 0) + 1
+                if d2 is None or d2["error_num"] != 18 or d2["data_len"] != 0:
+                    fails.append({"why": "credential restricted to uid=%d gid=%d, asked for by peer uid=%d gid=%d in a request flagged as "
+                                         "retry 1 right after a request of the authorized peer, gave error %s with %s payload bytes, expected 18 "
+                                         "(the identity of an EARLIER connection decided)" % (u, g, du, dg, d2 and d2["error_num"], d2 and d2["data_len"]),
+                                  "cred_hex": r["data"].hex()})
             if d is None or d["error_num"] != want:
                 fails.append({"why": "credential restricted to uid=%d gid=%d decoded by peer uid=%d gid=%d gave error %s, expected %d"
                                      % (u, g, du, dg, d and d["error_num"], want)})
